@@ -6,6 +6,7 @@ import UgoVerif.Gen.EncBuiltins
   Protocol: notes/enc-protocol.md.  Not part of the proofs.
 -/
 namespace Driver
+namespace EncDrv
 open UgoVerif.Go UgoVerif.Model.Enc
 
 def decOfInt (v : BitVec 64) : String := toString v.toInt
@@ -241,4 +242,5 @@ def handleEncDec (withReenc : Bool) : List String → String
 def handleEnc (args : List String) : String := handleEncDec true args
 def handleDec (args : List String) : String := handleEncDec false args
 
+end EncDrv
 end Driver
